@@ -37,6 +37,7 @@ class ManualExecutor(Executor):
         k = self.n
         p = self.plan.get(sub, self.plan.get(str(sub), {}))
         fut = Future()
+        fut._mxv_sub = sub
         self.futs.setdefault(sub, []).append(fut)
         E.emit("DelegateSubmit", f=sub, k=k, s=self.tag)
         if not p.get("cancellable", True):
